@@ -24,6 +24,8 @@ bootstrap() {
 }
 bootstrap || { echo "bootstrap of $VENV failed" >&2; exit 2; }
 export PYTHONPATH="$HERE${PYTHONPATH:+:$PYTHONPATH}"
+# development aid only (never used by the registered commands): analyse a scratch worktree
+if [ -n "${VF_REPO:-}" ]; then export PYTHONPATH="$VF_REPO/src:$PYTHONPATH"; fi
 export PYTHONDONTWRITEBYTECODE=1
 export PYTHONHASHSEED="${PYTHONHASHSEED:-0}"
 if [ "${1:-}" = "setup" ]; then
